@@ -555,7 +555,7 @@ func csRun(t *rapid.T, st *vkit.Stats, prof string) {
 		add("cancelParent", m.ruleCancelParent)
 	}
 	add("closeSource", m.ruleCloseSource)
-	t.Repeat(actions)
+	t.Repeat(vkit.NoStarve(actions, nil))
 
 	// ---- teardown
 	m.tr("teardown")
